@@ -22,16 +22,21 @@ def need(fx, fid):
 
 def run(ctx):
     fx = ctx.facts("default")
-    fixtures.run(ctx, ['atom', 'lockcov'])
+    fixtures.run(ctx, ['atom', 'lockcov', 'commit'])
     # clause 1: check-then-act on atomics anywhere in the two files
     n = 0
     nat = 0
+    ncommit = 0
     for f in FILES:
         for fid in fx.fn_ids(f):
             fn = Fn(fx.raw(fid))
             ctx.analysed_fns.add(fid)
             nat += len(sync.atomic_sites(fn))
             n += sync.check_then_act(ctx, fn)
+            # a count that was already raised when a limit refuses the request is lowered again on the refusing path
+            if "::tests::" not in fid:
+                ncommit += sync.commit_before_check(ctx, fn, fx=fx)
+    ctx.instance("R-COMMIT.decisions", ncommit)
     vs_fns = [Fn(fx.raw(fid)) for fid in fx.fn_ids(VS) if "::tests::" not in fid]
     sync.load_modify_store(ctx, vs_fns)
     ctx.instance("R-ATOM.atomic_sites", nat)
